@@ -24,7 +24,8 @@ def lit_text(v):
             mant, exp = s.split('e')
             s = mant + 'e' + str(int(exp))
         return s
-    return '"%s"' % v
+    # string literals take the escapes of spec string literals: \\ \" \n \t
+    return '"%s"' % (v.replace('\\', '\\\\').replace('"', '\\"').replace('\n', '\\n').replace('\t', '\\t'))
 
 
 def render(e, rnd, parent=None, side=None):
